@@ -25,6 +25,12 @@ func main() {
 	if len(os.Args) < 2 {
 		usage()
 	}
+	// the loader and the replay tests shell out to `go`: use the offline toolchain
+	os.Setenv("PATH", "/opt/veriftools/go1.26.8/bin:"+os.Getenv("PATH"))
+	os.Setenv("GOFLAGS", "-mod=mod")
+	os.Setenv("GOPROXY", "off")
+	os.Setenv("GOSUMDB", "off")
+	os.Setenv("GOTOOLCHAIN", "local")
 	switch os.Args[1] {
 	case "dump":
 		cmdDump(os.Args[2:])
